@@ -379,10 +379,14 @@ pub fn run(ctx: &Ctx) -> (Stats, Spec) {
     let wk_iters = ctx.tier.pick(3_000u64, 60_000u64);
     let parts = util::par_jobs(16, |job| super::weak::weak_hash_job(ctx, "C07", job, wk_iters));
     st.merge(crate::report::merge_all(parts));
+    let wide_iters = ctx.tier.pick(400u64, 8_000u64);
+    let parts = util::par_jobs(16, |job| super::wide::wide_job(ctx, "C07", job, wide_iters));
+    st.merge(crate::report::merge_all(parts));
     let spec = Spec {
-        rule: "every Boolean function over 3 and 4 variables (two label families) plus random functions over 5-8 sparse labels with densities biased towards sparse (else-arms); a third of all diagrams are handed over as plain unshared nodes the environment did not build; for each: model() false iff unsat, cube shape, literals within support, model => f; infer(model, v) and infer(f, v) for every variable and one unmentioned variable; CLI: generated formulas through `rsbdd -m -t`, `-m -t -ft`, `-m -v`, and `-m -c t|f -t` related to `-c t|f -t` (the model row must be a satisfying cube of the retained diagram). distinct = (table, family) resp. (text, mode); non-trivial = satisfiable non-constant function (CLI: >= 2 free variables).".into(),
+        rule: "every Boolean function over 3 and 4 variables (two label families) plus random functions over 5-8 sparse labels with densities biased towards sparse (else-arms); a third of all diagrams are handed over as plain unshared nodes the environment did not build; for each: model() false iff unsat, cube shape, literals within support, model => f; infer(model, v) and infer(f, v) for every variable and one unmentioned variable; CLI: generated formulas through `rsbdd -m -t`, `-m -t -ft`, `-m -v`, and `-m -c t|f -t` related to `-c t|f -t` (the model row must be a satisfying cube of the retained diagram). distinct = (table, family) resp. (text, mode); non-trivial = satisfiable non-constant function (CLI: >= 2 free variables). MANY VARIABLES: the same judgement on environments with 65-200 variables (more than a machine word of them), where operands are random DNFs and results are compared pointwise on 48 sampled assignments per case (biased towards the operands' cubes) and walked for order / reduction.".into(),
         assumptions: vec!["infer on a variable the diagram does not mention counts as forced only when the diagram is unsatisfiable".into()],
         floors: vec![
+            ("many_variable_cases".into(), 1_000, "environments with more than 64 variables never exercised".into()),
             ("weak_hash_symbol_calls".into(), 2_000, "environment over a constant-hash symbol type never exercised".into()),
             ("model_calls".into(), 60_000, "model never exercised".into()),
             ("models_needing_an_else_arm".into(), 1_000, "else-arm of model never exercised".into()),
@@ -397,6 +401,10 @@ pub fn run(ctx: &Ctx) -> (Stats, Spec) {
 }
 
 pub fn replay(ctx: &Ctx, _monitor: &str, case: &Value, st: &mut Stats) {
+    if case.get("kind").and_then(|k| k.as_str()) == Some("wide") {
+        super::wide::replay_wide(ctx, "C07", case, st);
+        return;
+    }
     if case.get("kind").and_then(|k| k.as_str()) == Some("weak-hash") {
         let job = case.get("job").and_then(|j| j.as_u64()).unwrap_or(0) as usize;
         let mut c2 = ctx.clone();
